@@ -176,3 +176,59 @@ def keyword_boundaries(pattern, flags=0, min_len=2):
 def anchored_start(pattern, flags=0):
     tree = list(sre_parse.parse(pattern, flags))
     return bool(tree) and tree[0][0] is sre_c.AT and tree[0][1] in (sre_c.AT_BEGINNING, sre_c.AT_BEGINNING_STRING)
+
+
+def ambiguous_nested_repeats(pattern, flags=0):
+    """[(text of the inner repeat's first set, why)] for every unbounded repeat R whose body contains an unbounded repeat r
+    such that, after r, the rest of R's body can match the empty string and the characters r consumes can also start a new
+    iteration of R: the same run of characters can then be split between r and R in exponentially many ways, and a line that
+    finally fails to match makes the backtracking matcher try them all (e.g. ``(?:\\w+\\s*,?\\s*)+$``)."""
+    tree = sre_parse.parse(pattern, flags)
+    flags |= tree.state.flags
+    MAXR = sre_c.MAXREPEAT
+    out = []
+    REPEATS = tuple(x for x in (sre_c.MAX_REPEAT, sre_c.MIN_REPEAT, getattr(sre_c, "POSSESSIVE_REPEAT", None)) if x is not None)
+
+    def nullable(seq):
+        return first(list(seq), (frozenset(), True), flags)[1]
+
+    def inner_tail_repeats(seq):
+        """unbounded repeats of `seq` that can be the last thing matched in it: (first set of the repeat's body)"""
+        items = list(seq)
+        found = []
+        for i, (op, av) in enumerate(items):
+            rest = items[i + 1:]
+            if not nullable(rest):
+                continue
+            if op in REPEATS:
+                lo, hi, sub = av
+                if hi == MAXR and op is not getattr(sre_c, "POSSESSIVE_REPEAT", None):
+                    found.append(first(list(sub), (frozenset(), True), flags)[0])
+                found += inner_tail_repeats(sub)
+            elif op is sre_c.SUBPATTERN:
+                found += inner_tail_repeats(av[3])
+            elif op is sre_c.BRANCH:
+                for alt in av[1]:
+                    found += inner_tail_repeats(alt)
+        return found
+
+    def walk(seq):
+        for op, av in list(seq):
+            if op in REPEATS:
+                lo, hi, sub = av
+                if hi == MAXR and op is not getattr(sre_c, "POSSESSIVE_REPEAT", None):
+                    start = first(list(sub), (frozenset(), True), flags)[0]
+                    for f_ in inner_tail_repeats(sub):
+                        both = f_ & start
+                        if both:
+                            out.append(("".join(sorted(both))[:10], "an inner unbounded repeat at the end of the body of an outer unbounded repeat consumes characters that can also begin the next outer iteration"))
+                walk(sub)
+            elif op is sre_c.SUBPATTERN:
+                walk(av[3])
+            elif op is sre_c.BRANCH:
+                for alt in av[1]:
+                    walk(alt)
+            elif op in (sre_c.ASSERT, sre_c.ASSERT_NOT):
+                walk(av[1])
+    walk(tree)
+    return out
